@@ -415,13 +415,48 @@ def FYm (o : VecOps E ℝ) (t t' : Fn E ℝ) : Prop :=
   ∀ x y, t.dom o x = true → t'.dom o y = true → o.inner x y ≤ t.value o x + t'.value o y
 end OdlModel.C08
 
+namespace OdlModel.C08
+/-- No `FunctionalComp` node anywhere in the expression. -/
+def noComp : Fn E ℝ → Bool
+  | .comp .. => false
+  | .lscal _ f | .rscal f _ | .rvec f _ _ | .ssum f _ | .trans f _ | .qp f _ _ _ _
+  | .breg f _ _ | .menv f _ _ | .dconj f => noComp f
+  | .sum f g | .prod f g | .quot f g | .infconv f g => noComp f && noComp g
+  | _ => true
+end OdlModel.C08
+
+/-- `FunctionalTranslation`'s merging of nested translations does not change values. -/
+theorem C08.translated_value (μ : E → E → E) (cv : Builtin ℝ → E → ℝ) (cd : Builtin ℝ → E → Bool)
+    (cg : Builtin ℝ → E → E) (g : Fn E ℝ) (u y : E) :
+    (Fn.translated (eOps μ cv cd cg) g u).value (eOps μ cv cd cg) y
+      = (Fn.trans g u).value (eOps μ cv cd cg) y := by
+  cases g <;> try rfl
+  case trans g0 t0 =>
+    show g0.value (eOps μ cv cd cg) (y - (t0 + u)) = g0.value (eOps μ cv cd cg) (y - u - t0)
+    congr 1; abel
+
+/-- … nor domains. -/
+theorem C08.translated_dom (μ : E → E → E) (cv : Builtin ℝ → E → ℝ) (cd : Builtin ℝ → E → Bool)
+    (cg : Builtin ℝ → E → E) (g : Fn E ℝ) (u y : E) :
+    (Fn.translated (eOps μ cv cd cg) g u).dom (eOps μ cv cd cg) y
+      = (Fn.trans g u).dom (eOps μ cv cd cg) y := by
+  cases g <;> try rfl
+  case trans g0 t0 =>
+    show g0.dom (eOps μ cv cd cg) (y - (t0 + u)) = g0.dom (eOps μ cv cd cg) (y - u - t0)
+    congr 1; abel
+
+theorem C08.translated_flags (o : VecOps E ℝ) (g : Fn E ℝ) (u : E) :
+    (Fn.translated o g u).isLinear = false ∧ noComp (Fn.translated o g u) = noComp g := by
+  cases g <;> simp [Fn.translated, Fn.isLinear, noComp]
+
 /-- A functional that the constructors flag `is_linear` (the flag that makes
 `Functional.__mul__` build `s * f` instead of `f(s ·)`) is homogeneous and finite everywhere.
 True for the flag as computed since the fix of finding C09-F2 (it was false for
 `FunctionalQuadraticPerturb` with a nonzero constant before). -/
 theorem C08.linear_flag_homogeneous (μ : E → E → E) (cv : Builtin ℝ → E → ℝ)
-    (cd : Builtin ℝ → E → Bool) (cg : Builtin ℝ → E → E) (t : Fn E ℝ)
-    (h : t.isLinear = true) :
+    (cd : Builtin ℝ → E → Bool) (cg : Builtin ℝ → E → E)
+    (hμ : ∀ (v : E) (c : ℝ) (y : E), μ v (c • y) = c • μ v y) (t : Fn E ℝ)
+    (hnc : noComp t = true) (h : t.isLinear = true) :
     (∀ (c : ℝ) (y : E), t.value (eOps μ cv cd cg) (c • y) = c * t.value (eOps μ cv cd cg) y) ∧
       ∀ y, t.dom (eOps μ cv cd cg) y = true := by
   have hsm : ∀ (a : ℝ) (z : E), (eOps μ cv cd cg).smul a z = a • z := fun _ _ => rfl
@@ -434,43 +469,237 @@ theorem C08.linear_flag_homogeneous (μ : E → E → E) (cv : Builtin ℝ → E
       simp [Fn.isLinear] at h; subst h
       exact ⟨fun c y => by simp only [Fn.value, hin, real_inner_smul_right]; ring, fun y => rfl⟩
   | lscal s f ih =>
-      obtain ⟨h1, h2⟩ := ih (by simpa [Fn.isLinear] using h)
+      obtain ⟨h1, h2⟩ := ih (by simpa [noComp] using hnc) (by simpa [Fn.isLinear] using h)
       exact ⟨fun c y => by simp only [Fn.value, h1]; ring, fun y => by simpa [Fn.dom] using h2 y⟩
   | rscal f s ih =>
-      obtain ⟨h1, h2⟩ := ih (by simpa [Fn.isLinear] using h)
+      obtain ⟨h1, h2⟩ := ih (by simpa [noComp] using hnc) (by simpa [Fn.isLinear] using h)
       refine ⟨fun c y => ?_, fun y => by simpa [Fn.dom] using h2 _⟩
       simp only [Fn.value, hsm]
       rw [smul_comm, h1]
   | sum f g ihf ihg =>
       simp [Fn.isLinear] at h
-      obtain ⟨f1, f2⟩ := ihf h.1
-      obtain ⟨g1, g2⟩ := ihg h.2
+      simp [noComp] at hnc
+      obtain ⟨f1, f2⟩ := ihf hnc.1 h.1
+      obtain ⟨g1, g2⟩ := ihg hnc.2 h.2
       exact ⟨fun c y => by simp only [Fn.value, f1, g1]; ring,
         fun y => by simp [Fn.dom, f2 y, g2 y]⟩
   | ssum f c ih =>
       simp [Fn.isLinear] at h
-      obtain ⟨h1, h2⟩ := ih h.1
+      obtain ⟨h1, h2⟩ := ih (by simpa [noComp] using hnc) h.1
       obtain rfl := h.2
       exact ⟨fun c y => by simp only [Fn.value, h1]; ring, fun y => by simpa [Fn.dom] using h2 y⟩
   | qp f a hasU u c ih =>
       simp [Fn.isLinear] at h
       obtain ⟨⟨hf, rfl⟩, rfl⟩ := h
-      obtain ⟨h1, h2⟩ := ih hf
+      obtain ⟨h1, h2⟩ := ih (by simpa [noComp] using hnc) hf
       refine ⟨fun c y => ?_, fun y => by simpa [Fn.dom] using h2 y⟩
       simp only [Fn.value, hin, h1, real_inner_smul_left]; ring
   | coord b => simp [Fn.isLinear] at h
   | l2sq => simp [Fn.isLinear] at h
   | indZero c => simp [Fn.isLinear] at h
   | quad A At Ainv AinvT hasB b c => simp [Fn.isLinear] at h
-  | rvec f v vinv _ => simp [Fn.isLinear] at h
+  | rvec f v vinv ih =>
+      obtain ⟨h1, h2⟩ := ih (by simpa [noComp] using hnc) (by simpa [Fn.isLinear] using h)
+      refine ⟨fun c y => ?_, fun y => by simpa [Fn.dom] using h2 _⟩
+      have hm : ∀ z : E, (eOps μ cv cd cg).mul v z = μ v z := fun _ => rfl
+      simp only [Fn.value, hm]
+      rw [hμ, h1]
   | trans f t _ => simp [Fn.isLinear] at h
   | prod f g _ _ => simp [Fn.isLinear] at h
   | quot f g _ _ => simp [Fn.isLinear] at h
-  | comp f op dAdj _ => simp [Fn.isLinear] at h
+  | comp f op dAdj opLin _ => simp [noComp] at hnc
   | breg f p q _ => simp [Fn.isLinear] at h
   | infconv f g _ _ => simp [Fn.isLinear] at h
   | menv f P σ _ => simp [Fn.isLinear] at h
-  | dconj f _ => simp [Fn.isLinear] at h
+  | dconj f _ => exact ⟨fun c y => by simp [Fn.value], fun y => rfl⟩
+
+namespace OdlModel.C08
+/-- `f * a` without the constructors' merging of nested scalar multiplications (semantically
+equal to the coded `Fn.mulScalar`, see `C08.mulScalar_sem`). -/
+noncomputable def plainMul (f : Fn E ℝ) (a : ℝ) : Fn E ℝ :=
+  if f.isLinear then .lscal a f else .rscal f a
+end OdlModel.C08
+
+/-- Merging nested left scalar multiplications changes neither values, domains nor flags. -/
+theorem C08.mkLscal_sem (o : VecOps E ℝ) (a : ℝ) (f : Fn E ℝ) :
+    (∀ y, (Fn.mkLscal a f).value o y = (Fn.lscal a f).value o y) ∧
+    (∀ y, (Fn.mkLscal a f).dom o y = (Fn.lscal a f).dom o y) ∧
+    (Fn.mkLscal a f).isLinear = f.isLinear ∧ noComp (Fn.mkLscal a f) = noComp f := by
+  cases f <;> simp [Fn.mkLscal, Fn.value, Fn.dom, Fn.isLinear, noComp, mul_assoc]
+
+/-- … likewise for nested right scalar multiplications. -/
+theorem C08.mkRscal_sem (μ : E → E → E) (cv : Builtin ℝ → E → ℝ) (cd : Builtin ℝ → E → Bool)
+    (cg : Builtin ℝ → E → E) (a : ℝ) (f : Fn E ℝ) :
+    (∀ y, (Fn.mkRscal f a).value (eOps μ cv cd cg) y = (Fn.rscal f a).value (eOps μ cv cd cg) y) ∧
+    (∀ y, (Fn.mkRscal f a).dom (eOps μ cv cd cg) y = (Fn.rscal f a).dom (eOps μ cv cd cg) y) ∧
+    (Fn.mkRscal f a).isLinear = f.isLinear ∧ noComp (Fn.mkRscal f a) = noComp f := by
+  have hsm : ∀ (a : ℝ) (z : E), (eOps μ cv cd cg).smul a z = a • z := fun _ _ => rfl
+  cases f <;> simp [Fn.mkRscal, Fn.value, Fn.dom, Fn.isLinear, noComp]
+  case rscal g s0 =>
+    constructor <;> intro y <;> simp only [hsm, smul_smul, mul_comm a s0]
+
+/-- The coded `f * a` (with merging) and the plain one agree semantically. -/
+theorem C08.mulScalar_sem (μ : E → E → E) (cv : Builtin ℝ → E → ℝ) (cd : Builtin ℝ → E → Bool)
+    (cg : Builtin ℝ → E → E) (a : ℝ) (f : Fn E ℝ) :
+    (∀ y, (Fn.mulScalar f a).value (eOps μ cv cd cg) y = (plainMul f a).value (eOps μ cv cd cg) y) ∧
+    (∀ y, (Fn.mulScalar f a).dom (eOps μ cv cd cg) y = (plainMul f a).dom (eOps μ cv cd cg) y) ∧
+    noComp (Fn.mulScalar f a) = noComp f := by
+  unfold Fn.mulScalar plainMul
+  by_cases hl : f.isLinear = true
+  · simp only [hl, if_true]
+    obtain ⟨l1, l2, _, l4⟩ := C08.mkLscal_sem (eOps μ cv cd cg) a f
+    exact ⟨l1, l2, l4⟩
+  · simp only [hl]
+    exact ⟨(C08.mkRscal_sem μ cv cd cg a f).1, (C08.mkRscal_sem μ cv cd cg a f).2.1,
+      (C08.mkRscal_sem μ cv cd cg a f).2.2.2⟩
+
+/-- Merging does not create or remove `FunctionalComp` nodes. -/
+theorem C08.mk_noComp (a : ℝ) (f : Fn E ℝ) :
+    noComp (Fn.mkLscal a f) = noComp f ∧ noComp (Fn.mkRscal f a) = noComp f ∧
+      noComp (Fn.mulScalar f a) = noComp f := by
+  have h1 : noComp (Fn.mkLscal a f) = noComp f := by cases f <;> simp [Fn.mkLscal, noComp]
+  have h2 : noComp (Fn.mkRscal f a) = noComp f := by cases f <;> simp [Fn.mkRscal, noComp]
+  refine ⟨h1, h2, ?_⟩
+  unfold Fn.mulScalar
+  cases f.isLinear <;> simp [h1, h2]
+
+/-- Semantics of the coded `FunctionalLeftScalarMult.convex_conj = s * f* * (1/s)`. -/
+theorem C08.conj_lscal_sem (μ : E → E → E) (cv : Builtin ℝ → E → ℝ) (cd : Builtin ℝ → E → Bool)
+    (cg : Builtin ℝ → E → E) (s : ℝ) (f g t' : Fn E ℝ) (hs : ¬ s ≤ 0)
+    (hfc : f.conj (eOps μ cv cd cg) = some g)
+    (h : (Fn.lscal s f).conj (eOps μ cv cd cg) = some t') :
+    (∀ y, t'.value (eOps μ cv cd cg) y = (plainMul (.lscal s g) (1 / s)).value (eOps μ cv cd cg) y) ∧
+    (∀ y, t'.dom (eOps μ cv cd cg) y = (plainMul (.lscal s g) (1 / s)).dom (eOps μ cv cd cg) y) ∧
+    noComp t' = noComp g := by
+  simp only [Fn.conj, hs, if_false, hfc, Option.some.injEq] at h
+  subst h
+  obtain ⟨h1, h2, h3⟩ := C08.mulScalar_sem μ cv cd cg (1 / s) (Fn.mkLscal s g)
+  obtain ⟨l1, l2, l3, l4⟩ := C08.mkLscal_sem (eOps μ cv cd cg) s g
+  refine ⟨fun y => ?_, fun y => ?_, by rw [h3, l4]⟩
+  · rw [h1]; unfold plainMul; rw [l3]
+    cases hl : g.isLinear
+    · simp only [Fn.isLinear, hl, Bool.false_eq_true, if_false, Fn.value, l1]
+    · simp only [Fn.isLinear, hl, if_true, Fn.value, l1]
+  · rw [h2]; unfold plainMul; rw [l3]
+    cases hl : g.isLinear
+    · simp only [Fn.isLinear, hl, Bool.false_eq_true, if_false, Fn.dom, l2]
+    · simp only [Fn.isLinear, hl, if_true, Fn.dom, l2]
+
+/-- Semantics of the coded `FunctionalRightScalarMult.convex_conj = f* * (1/s)`. -/
+theorem C08.conj_rscal_sem (μ : E → E → E) (cv : Builtin ℝ → E → ℝ) (cd : Builtin ℝ → E → Bool)
+    (cg : Builtin ℝ → E → E) (s : ℝ) (f g t' : Fn E ℝ)
+    (hfc : f.conj (eOps μ cv cd cg) = some g)
+    (h : (Fn.rscal f s).conj (eOps μ cv cd cg) = some t') :
+    (∀ y, t'.value (eOps μ cv cd cg) y = (plainMul g (1 / s)).value (eOps μ cv cd cg) y) ∧
+    (∀ y, t'.dom (eOps μ cv cd cg) y = (plainMul g (1 / s)).dom (eOps μ cv cd cg) y) ∧
+    noComp t' = noComp g := by
+  simp only [Fn.conj, hfc, Option.some.injEq] at h
+  subst h
+  exact C08.mulScalar_sem μ cv cd cg (1 / s) g
+
+/-- Fenchel–Young only depends on the values and domains of the partner. -/
+theorem C08.FYm_congr (o : VecOps E ℝ) (t a b : Fn E ℝ) (hv : ∀ y, a.value o y = b.value o y)
+    (hd : ∀ y, a.dom o y = b.dom o y) (hb : FYm o t b) : FYm o t a := by
+  intro x y hx hy
+  rw [hv]; exact hb x y hx (by rw [← hd]; exact hy)
+
+/-- Transfer lemmas: the merged translation may be replaced by the plain one. -/
+theorem C08.FYm_translated (μ : E → E → E) (cv : Builtin ℝ → E → ℝ) (cd : Builtin ℝ → E → Bool)
+    (cg : Builtin ℝ → E → E) (t g : Fn E ℝ) (u : E) :
+    (FYm (eOps μ cv cd cg) t (.trans g u) → FYm (eOps μ cv cd cg) t (Fn.translated (eOps μ cv cd cg) g u)) ∧
+    (∀ c, FYm (eOps μ cv cd cg) t (.ssum (.trans g u) c) →
+      FYm (eOps μ cv cd cg) t (.ssum (Fn.translated (eOps μ cv cd cg) g u) c)) := by
+  constructor
+  · intro hyp x y hx hy
+    rw [C08.translated_dom] at hy
+    rw [C08.translated_value]
+    exact hyp x y hx hy
+  · intro c hyp x y hx hy
+    have hy' : (Fn.ssum (.trans g u) c).dom (eOps μ cv cd cg) y = true := by
+      have e := C08.translated_dom μ cv cd cg g u y
+      simp only [Fn.dom] at hy e ⊢
+      rw [← e]; exact hy
+    have := hyp x y hx hy'
+    simp only [Fn.value] at this ⊢
+    rw [C08.translated_value]
+    simpa [Fn.value] using this
+
+/-- The coded conjugate of an expression in the fragment `Reg` contains no `FunctionalComp`. -/
+theorem C08.conj_noComp (o : VecOps E ℝ) (t t' : Fn E ℝ) (hreg : Reg o t)
+    (h : t.conj o = some t') : noComp t' = true := by
+  induction t generalizing t' with
+  | coord b => cases b <;> (simp [Fn.conj] at h; subst h; simp [noComp])
+  | l2sq => simp [Fn.conj] at h; subst h; simp [noComp]
+  | const c => simp [Fn.conj] at h; subst h; simp [noComp]
+  | indZero c => simp [Fn.conj] at h; subst h; simp [noComp]
+  | lin b c => simp [Fn.conj, Fn.translated] at h; subst h; simp [noComp]
+  | quad A At Ainv AinvT hasB b c =>
+      by_cases hb : hasB = true <;> (simp [Fn.conj, hb] at h; subst h; simp [noComp])
+  | lscal s f ih =>
+      by_cases hs : s ≤ 0
+      · simp [Fn.conj, hs] at h
+      · cases hfc : f.conj o with
+        | none => simp [Fn.conj, hs, hfc] at h
+        | some g =>
+            have := ih g hreg hfc
+            simp only [Fn.conj, hs, if_false, hfc, Option.some.injEq] at h
+            subst h
+            rw [(C08.mk_noComp _ _).2.2, (C08.mk_noComp _ _).1]; exact this
+  | rscal f s ih =>
+      cases hfc : f.conj o with
+      | none => simp [Fn.conj, hfc] at h
+      | some g =>
+          have := ih g hreg.2 hfc
+          simp only [Fn.conj, hfc, Option.some.injEq] at h
+          subst h
+          rw [(C08.mk_noComp _ _).2.2]; exact this
+  | rvec f v vinv ih =>
+      cases hfc : f.conj o with
+      | none => simp [Fn.conj, hfc] at h
+      | some g =>
+          have := ih g hreg.2.2.2 hfc
+          simp [Fn.conj, hfc] at h; subst h; simpa [noComp] using this
+  | ssum f c ih =>
+      cases hfc : f.conj o with
+      | none => simp [Fn.conj, hfc] at h
+      | some g =>
+          have := ih g hreg hfc
+          simp [Fn.conj, hfc] at h; subst h; simpa [noComp] using this
+  | trans f t ih =>
+      cases hfc : f.conj o with
+      | none => simp [Fn.conj, hfc] at h
+      | some g =>
+          have := ih g hreg hfc
+          simp [Fn.conj, hfc] at h; subst h; simpa [noComp] using this
+  | qp f a hasU u c ih =>
+      obtain ⟨ha, hr⟩ := hreg
+      subst ha
+      cases hfc : f.conj o with
+      | none => simp [Fn.conj, hfc] at h
+      | some g =>
+          have := ih g hr hfc
+          by_cases hc : c = 0 <;>
+            (simp [Fn.conj, hfc, hc] at h; subst h
+             simpa [noComp, (C08.translated_flags o g u).2] using this)
+  | breg f p q ih =>
+      cases hfc : f.conj o with
+      | none => simp [Fn.conj, hfc] at h
+      | some g =>
+          have := ih g hreg hfc
+          by_cases hc : -(f.value o p) + o.inner q p = 0
+          · simp only [Fn.conj, hfc, hc, if_true] at h
+            simp at h; subst h
+            simpa [noComp, (C08.translated_flags o g _).2] using this
+          · simp only [Fn.conj, hfc, hc, if_false] at h
+            simp at h; subst h
+            simpa [noComp, (C08.translated_flags o g _).2] using this
+  | sum f g _ _ => exact hreg.elim
+  | prod f g _ _ => exact hreg.elim
+  | quot f g _ _ => exact hreg.elim
+  | comp f op dAdj opLin _ => exact hreg.elim
+  | infconv f g _ _ => exact hreg.elim
+  | menv f P σ _ => exact hreg.elim
+  | dconj f _ => exact hreg.elim
 
 /-- **The conjugation rules as coded are sound for expression trees** (all depths, every real
 inner-product space, i.e. every weighting / discretisation / product structure): if
@@ -488,6 +717,7 @@ LeftScalarMult, RightScalarMult, RightVectorMult, ScalarSum, Translation, Quadra
 equality case at `y = ∇f(x)` on trees is `C08.conj_sound_eq`. -/
 theorem C08.conj_sound (μ : E → E → E) (cv : Builtin ℝ → E → ℝ)
     (cd : Builtin ℝ → E → Bool) (cg : Builtin ℝ → E → E)
+    (hμ : ∀ (v : E) (c : ℝ) (y : E), μ v (c • y) = c • μ v y)
     (hl1 : FYm (eOps μ cv cd cg) (.coord .l1) (.coord .indLinf))
     (hlinf : FYm (eOps μ cv cd cg) (.coord .indLinf) (.coord .l1))
     (hhub : ∀ γ, FYm (eOps μ cv cd cg) (.coord (.huber γ))
@@ -529,7 +759,7 @@ theorem C08.conj_sound (μ : E → E → E) (cv : Builtin ℝ → E → ℝ)
       subst hx
       simp [Fn.value, eOps]
   | lin b c =>
-      simp [Fn.conj] at h; subst h
+      simp [Fn.conj, Fn.translated] at h; subst h
       intro x y _ hy
       simp only [Fn.dom, eOps, decide_eq_true_eq] at hy
       have : y = b := sub_eq_zero.mp hy
@@ -568,18 +798,21 @@ theorem C08.conj_sound (μ : E → E → E) (cv : Builtin ℝ → E → ℝ)
             have hs' : 0 < s := not_le.mp hs
             have hne : s ≠ 0 := ne_of_gt hs'
             have hfy := ih g hreg hfc
+            obtain ⟨sv, sd, _⟩ := C08.conj_lscal_sem μ cv cd cg s f g t' hs hfc h
+            refine C08.FYm_congr _ _ _ _ sv sd ?_
+            unfold plainMul
             by_cases hlin : g.isLinear = true
             · -- `Functional.__mul__` builds `(1/s) * (s * g)` for a functional flagged linear
-              simp [Fn.conj, hs, hfc, Fn.mulScalar, Fn.isLinear, hlin] at h
-              subst h
-              obtain ⟨hhom, hdom⟩ := C08.linear_flag_homogeneous μ cv cd cg g hlin
+              simp only [Fn.isLinear, hlin, if_true]
+              obtain ⟨hhom, hdom⟩ := C08.linear_flag_homogeneous μ cv cd cg hμ g
+                (C08.conj_noComp _ _ g (by assumption) hfc) hlin
               intro x y hx _
               have h2 := hfy x ((1 / s) • y) (by simpa [Fn.dom] using hx) (hdom _)
               rw [hhom, hin, real_inner_smul_right] at h2
               simp only [Fn.value, hin]
               have h3 := mul_le_mul_of_nonneg_left h2 hs'.le
               have e1 : s * (1 / s * ⟪x, y⟫) = ⟪x, y⟫ := by field_simp
-              have e2 : s⁻¹ * (s * g.value (eOps μ cv cd cg) y) = g.value (eOps μ cv cd cg) y := by
+              have e2 : 1 / s * (s * g.value (eOps μ cv cd cg) y) = g.value (eOps μ cv cd cg) y := by
                 field_simp
               have e3 : s * (f.value (eOps μ cv cd cg) x + 1 / s * g.value (eOps μ cv cd cg) y)
                   = s * f.value (eOps μ cv cd cg) x + g.value (eOps μ cv cd cg) y := by
@@ -587,8 +820,8 @@ theorem C08.conj_sound (μ : E → E → E) (cv : Builtin ℝ → E → ℝ)
               rw [e1, e3] at h3
               rw [e2]
               exact h3
-            · simp [Fn.conj, hs, hfc, Fn.mulScalar, Fn.isLinear, hlin] at h
-              subst h
+            · have hlin' : g.isLinear = false := by simpa using hlin
+              simp only [Fn.isLinear, hlin', Bool.false_eq_true, if_false]
               have := (C08.conj_left_scalar hs' (mk f g hfy)).1
               intro x y hx hy
               have h2 := this x y hx (by simpa [Fn.dom, eOps] using hy)
@@ -600,16 +833,19 @@ theorem C08.conj_sound (μ : E → E → E) (cv : Builtin ℝ → E → ℝ)
       | some g =>
           have hfy := ih g hr hfc
           have := (C08.conj_right_scalar hs (mk f g hfy)).1
+          obtain ⟨sv, sd, _⟩ := C08.conj_rscal_sem μ cv cd cg s f g t' hfc h
+          refine C08.FYm_congr _ _ _ _ sv sd ?_
+          unfold plainMul
           by_cases hlin : g.isLinear = true
-          · simp [Fn.conj, hfc, Fn.mulScalar, hlin] at h
-            subst h
-            obtain ⟨hhom, hdom⟩ := C08.linear_flag_homogeneous μ cv cd cg g hlin
+          · simp only [hlin, if_true]
+            obtain ⟨hhom, hdom⟩ := C08.linear_flag_homogeneous μ cv cd cg hμ g
+                (C08.conj_noComp _ _ g (by assumption) hfc) hlin
             intro x y hx _
             have h2 := this x y (by simpa [Fn.dom, eOps] using hx) (hdom _)
             simp only [hhom] at h2
             simpa [Fn.value, eOps] using h2
-          · simp [Fn.conj, hfc, Fn.mulScalar, hlin] at h
-            subst h
+          · have hlin' : g.isLinear = false := by simpa using hlin
+            simp only [hlin', Bool.false_eq_true, if_false]
             intro x y hx hy
             have h2 := this x y (by simpa [Fn.dom, eOps] using hx) (by simpa [Fn.dom, eOps] using hy)
             simpa [Fn.value, eOps] using h2
@@ -655,12 +891,14 @@ theorem C08.conj_sound (μ : E → E → E) (cv : Builtin ℝ → E → ℝ)
           by_cases hc : c = 0
           · simp [Fn.conj, hfc, hc] at h
             subst h
+            apply (C08.FYm_translated μ cv cd cg _ g u).1
             intro x y hx hy
             have h2 := this x y (by simpa [Fn.dom, eOps] using hx) (by simpa [Fn.dom, eOps] using hy)
             simp [Fn.value, eOps, hc] at h2 ⊢
             linarith
           · simp [Fn.conj, hfc, hc] at h
             subst h
+            apply (C08.FYm_translated μ cv cd cg _ g u).2
             intro x y hx hy
             have h2 := this x y (by simpa [Fn.dom, eOps] using hx) (by simpa [Fn.dom, eOps] using hy)
             simp [Fn.value, eOps] at h2 ⊢
@@ -676,6 +914,7 @@ theorem C08.conj_sound (μ : E → E → E) (cv : Builtin ℝ → E → ℝ)
           · simp only [Fn.conj, hfc, hc, if_true] at h
             simp at h
             subst h
+            apply (C08.FYm_translated μ cv cd cg _ g _).1
             intro x y hx hy
             have h2 := this x y (by simpa [Fn.dom] using hx) (by simpa [Fn.dom, hsub] using hy)
             simp only [Fn.value, hc] at h2 ⊢
@@ -684,6 +923,7 @@ theorem C08.conj_sound (μ : E → E → E) (cv : Builtin ℝ → E → ℝ)
           · simp only [Fn.conj, hfc, hc, if_false] at h
             simp at h
             subst h
+            apply (C08.FYm_translated μ cv cd cg _ g _).2
             intro x y hx hy
             have h2 := this x y (by simpa [Fn.dom] using hx) (by simpa [Fn.dom, hsub] using hy)
             simp only [Fn.value] at h2 ⊢
@@ -692,7 +932,7 @@ theorem C08.conj_sound (μ : E → E → E) (cv : Builtin ℝ → E → ℝ)
   | sum f g _ _ => exact hreg.elim
   | prod f g _ _ => exact hreg.elim
   | quot f g _ _ => exact hreg.elim
-  | comp f op dAdj _ => exact hreg.elim
+  | comp f op dAdj opLin _ => exact hreg.elim
   | infconv f g _ _ => exact hreg.elim
   | menv f P σ _ => exact hreg.elim
   | dconj f _ => exact hreg.elim
@@ -708,7 +948,7 @@ example : ((Fn.trans (.lscal 2 .l2sq) 3 : Fn ℝ ℝ).conj
   · have h2 : ¬ ((2 : ℝ) ≤ 0) := by norm_num
     simp [Fn.conj, Fn.mulScalar, Fn.isLinear, h2]
   · intro t' h
-    refine C08.conj_sound (E := ℝ) _ _ _ _ ?_ ?_ ?_ _ t' ?_ h
+    refine C08.conj_sound (E := ℝ) _ _ _ _ (fun v c y => by simp [mul_left_comm]) ?_ ?_ ?_ _ t' ?_ h
     · intro x y hx; simp [Fn.dom, eOps] at hx
     · intro x y hx; simp [Fn.dom, eOps] at hx
     · intro γ x y hx; simp [Fn.dom, eOps] at hx
@@ -853,12 +1093,38 @@ def FYeqm (o : VecOps E ℝ) (t t' : Fn E ℝ) : Prop :=
     t'.dom o (t.grad o x) = true ∧ t.value o x + t'.value o (t.grad o x) = o.inner x (t.grad o x)
 end OdlModel.C08
 
+/-- The equality statement only depends on the values and domains of the partner. -/
+theorem C08.FYeqm_congr (o : VecOps E ℝ) (t a b : Fn E ℝ) (hv : ∀ y, a.value o y = b.value o y)
+    (hd : ∀ y, a.dom o y = b.dom o y) (hb : FYeqm o t b) : FYeqm o t a := by
+  intro x hx
+  obtain ⟨h1, h2⟩ := hb x hx
+  rw [hv, hd]; exact ⟨h1, h2⟩
+
+theorem C08.FYeqm_translated (μ : E → E → E) (cv : Builtin ℝ → E → ℝ) (cd : Builtin ℝ → E → Bool)
+    (cg : Builtin ℝ → E → E) (t g : Fn E ℝ) (u : E) :
+    (FYeqm (eOps μ cv cd cg) t (.trans g u) →
+      FYeqm (eOps μ cv cd cg) t (Fn.translated (eOps μ cv cd cg) g u)) ∧
+    (∀ c, FYeqm (eOps μ cv cd cg) t (.ssum (.trans g u) c) →
+      FYeqm (eOps μ cv cd cg) t (.ssum (Fn.translated (eOps μ cv cd cg) g u) c)) := by
+  constructor
+  · intro hyp x hx
+    obtain ⟨h1, h2⟩ := hyp x hx
+    rw [C08.translated_dom, C08.translated_value]
+    exact ⟨h1, h2⟩
+  · intro c hyp x hx
+    obtain ⟨h1, h2⟩ := hyp x hx
+    simp only [Fn.dom, Fn.value] at h1 h2 ⊢
+    rw [C08.translated_dom, C08.translated_value]
+    simp only [Fn.dom, Fn.value]
+    exact ⟨h1, h2⟩
+
 /-- **Equality case on expression trees**: under the same side conditions as `conj_sound`, for
 every expression that implements `gradient`, the coded conjugate evaluated at the coded
 gradient attains Fenchel–Young equality: `t(x) + t*(∇t(x)) = ⟨x, ∇t(x)⟩` (all depths, every
 real inner-product space), given it for the coordinate-wise leaves L1 and Huber. -/
 theorem C08.conj_sound_eq (μ : E → E → E) (cv : Builtin ℝ → E → ℝ)
     (cd : Builtin ℝ → E → Bool) (cg : Builtin ℝ → E → E)
+    (hμ : ∀ (v : E) (c : ℝ) (y : E), μ v (c • y) = c • μ v y)
     (hl1 : FYeqm (eOps μ cv cd cg) (.coord .l1) (.coord .indLinf))
     (hhub : ∀ γ, FYeqm (eOps μ cv cd cg) (.coord (.huber γ))
       (.qp (.coord .indLinf) (γ / two) false (eOps μ cv cd cg).zero 0))
@@ -891,7 +1157,7 @@ theorem C08.conj_sound_eq (μ : E → E → E) (cv : Builtin ℝ → E → ℝ)
       simp [Fn.value, Fn.grad, hin, hzero]
   | indZero c => simp [Fn.hasGrad] at hg
   | lin b c =>
-      simp [Fn.conj] at h; subst h
+      simp [Fn.conj, Fn.translated] at h; subst h
       intro x _
       refine ⟨by simp [Fn.dom, Fn.grad, hisz, hsub], ?_⟩
       simp [Fn.value, Fn.grad, hin, real_inner_comm]
@@ -943,28 +1209,31 @@ theorem C08.conj_sound_eq (μ : E → E → E) (cv : Builtin ℝ → E → ℝ)
             have hfe := ih g hreg hgf hfc
             have hk : ∀ z : E, (1 / s) • s • z = z := by
               intro z; rw [smul_smul]; field_simp; exact one_smul _ _
+            obtain ⟨sv, sd, _⟩ := C08.conj_lscal_sem μ cv cd cg s f g t' hs hfc h
+            refine C08.FYeqm_congr _ _ _ _ sv sd ?_
+            unfold plainMul
             by_cases hlin : g.isLinear = true
-            · simp [Fn.conj, hs, hfc, Fn.mulScalar, Fn.isLinear, hlin] at h
-              subst h
-              obtain ⟨hhom, hdom⟩ := C08.linear_flag_homogeneous μ cv cd cg g hlin
+            · simp only [Fn.isLinear, hlin, if_true]
+              obtain ⟨hhom, hdom⟩ := C08.linear_flag_homogeneous μ cv cd cg hμ g
+                (C08.conj_noComp _ _ g (by assumption) hfc) hlin
               intro x hx
               obtain ⟨_, he⟩ := hfe x (by simpa [Fn.dom] using hx)
               refine ⟨by simpa [Fn.dom] using hdom _, ?_⟩
               simp only [Fn.value, Fn.grad, hsm, hin, hhom, real_inner_smul_right] at he ⊢
-              have : s⁻¹ * (s * (s * g.value (eOps μ cv cd cg) (f.grad (eOps μ cv cd cg) x)))
+              have : 1 / s * (s * (s * g.value (eOps μ cv cd cg) (f.grad (eOps μ cv cd cg) x)))
                   = s * g.value (eOps μ cv cd cg) (f.grad (eOps μ cv cd cg) x) := by field_simp
               rw [this, ← he]; ring
-            · simp [Fn.conj, hs, hfc, Fn.mulScalar, Fn.isLinear, hlin] at h
-              subst h
+            · have hlin' : g.isLinear = false := by simpa using hlin
+              simp only [Fn.isLinear, hlin', Bool.false_eq_true, if_false]
               intro x hx
               obtain ⟨hd, he⟩ := hfe x (by simpa [Fn.dom] using hx)
               refine ⟨?_, ?_⟩
               · simp only [Fn.dom, Fn.grad, hsm]
-                rw [show s⁻¹ = 1 / s from (one_div s).symm, hk]; exact hd
+                rw [hk]; exact hd
               · have he' : f.value (eOps μ cv cd cg) x + g.value (eOps μ cv cd cg)
                     (f.grad (eOps μ cv cd cg) x) = ⟪x, f.grad (eOps μ cv cd cg) x⟫ := he
                 simp only [Fn.value, Fn.grad, hsm, hin, real_inner_smul_right]
-                rw [show s⁻¹ = 1 / s from (one_div s).symm, hk, ← he']; ring
+                rw [hk, ← he']; ring
   | rscal f s ih =>
       obtain ⟨hs, hr⟩ := hreg
       have hgf : f.hasGrad = true := by simpa [Fn.hasGrad] using hg
@@ -974,28 +1243,31 @@ theorem C08.conj_sound_eq (μ : E → E → E) (cv : Builtin ℝ → E → ℝ)
           have hfe := ih g hr hgf hfc
           have hk : ∀ z : E, (1 / s) • s • z = z := by
             intro z; rw [smul_smul]; field_simp; exact one_smul _ _
+          obtain ⟨sv, sd, _⟩ := C08.conj_rscal_sem μ cv cd cg s f g t' hfc h
+          refine C08.FYeqm_congr _ _ _ _ sv sd ?_
+          unfold plainMul
           by_cases hlin : g.isLinear = true
-          · simp [Fn.conj, hfc, Fn.mulScalar, hlin] at h
-            subst h
-            obtain ⟨hhom, hdom⟩ := C08.linear_flag_homogeneous μ cv cd cg g hlin
+          · simp only [hlin, if_true]
+            obtain ⟨hhom, hdom⟩ := C08.linear_flag_homogeneous μ cv cd cg hμ g
+                (C08.conj_noComp _ _ g (by assumption) hfc) hlin
             intro x hx
             obtain ⟨_, he⟩ := hfe (s • x) (by simpa [Fn.dom, hsm] using hx)
             refine ⟨by simpa [Fn.dom] using hdom _, ?_⟩
             simp only [Fn.value, Fn.grad, hsm, hin, hhom, real_inner_smul_right,
               real_inner_smul_left] at he ⊢
-            have : s⁻¹ * (s * g.value (eOps μ cv cd cg) (f.grad (eOps μ cv cd cg) (s • x)))
+            have : 1 / s * (s * g.value (eOps μ cv cd cg) (f.grad (eOps μ cv cd cg) (s • x)))
                 = g.value (eOps μ cv cd cg) (f.grad (eOps μ cv cd cg) (s • x)) := by field_simp
             rw [this]; exact he
-          · simp [Fn.conj, hfc, Fn.mulScalar, hlin] at h
-            subst h
+          · have hlin' : g.isLinear = false := by simpa using hlin
+            simp only [hlin', Bool.false_eq_true, if_false]
             intro x hx
             obtain ⟨hd, he⟩ := hfe (s • x) (by simpa [Fn.dom, hsm] using hx)
             refine ⟨?_, ?_⟩
             · simp only [Fn.dom, Fn.grad, hsm]
-              rw [show s⁻¹ = 1 / s from (one_div s).symm, hk]; exact hd
+              rw [hk]; exact hd
             · simp only [Fn.value, Fn.grad, hsm, hin, real_inner_smul_right,
                 real_inner_smul_left] at he ⊢
-              rw [show s⁻¹ = 1 / s from (one_div s).symm, hk]; exact he
+              rw [hk]; exact he
   | rvec f v vinv ih =>
       obtain ⟨hsym, hinv, hinv', hr⟩ := hreg
       have hgf : f.hasGrad = true := by simpa [Fn.hasGrad] using hg
@@ -1051,6 +1323,7 @@ theorem C08.conj_sound_eq (μ : E → E → E) (cv : Builtin ℝ → E → ℝ)
           by_cases hc : c = 0
           · simp [Fn.conj, hfc, hc] at h
             subst h
+            apply (C08.FYeqm_translated μ cv cd cg _ g u).1
             intro x hx
             obtain ⟨hd, he⟩ := ih g hr hgf hfc x (by simpa [Fn.dom] using hx)
             rw [hgr]
@@ -1059,6 +1332,7 @@ theorem C08.conj_sound_eq (μ : E → E → E) (cv : Builtin ℝ → E → ℝ)
             linarith
           · simp [Fn.conj, hfc, hc] at h
             subst h
+            apply (C08.FYeqm_translated μ cv cd cg _ g u).2
             intro x hx
             obtain ⟨hd, he⟩ := ih g hr hgf hfc x (by simpa [Fn.dom] using hx)
             rw [hgr]
@@ -1077,6 +1351,7 @@ theorem C08.conj_sound_eq (μ : E → E → E) (cv : Builtin ℝ → E → ℝ)
           · simp only [Fn.conj, hfc, hc, if_true] at h
             simp at h
             subst h
+            apply (C08.FYeqm_translated μ cv cd cg _ g _).1
             intro x hx
             obtain ⟨hd, he⟩ := ih g hreg hgf hfc x (by simpa [Fn.dom] using hx)
             refine ⟨by simp only [Fn.dom, hsub]; rw [hgr]; exact hd, ?_⟩
@@ -1087,6 +1362,7 @@ theorem C08.conj_sound_eq (μ : E → E → E) (cv : Builtin ℝ → E → ℝ)
           · simp only [Fn.conj, hfc, hc, if_false] at h
             simp at h
             subst h
+            apply (C08.FYeqm_translated μ cv cd cg _ g _).2
             intro x hx
             obtain ⟨hd, he⟩ := ih g hreg hgf hfc x (by simpa [Fn.dom] using hx)
             refine ⟨by simp only [Fn.dom, hsub]; rw [hgr]; exact hd, ?_⟩
@@ -1097,7 +1373,7 @@ theorem C08.conj_sound_eq (μ : E → E → E) (cv : Builtin ℝ → E → ℝ)
   | sum f g _ _ => exact hreg.elim
   | prod f g _ _ => exact hreg.elim
   | quot f g _ _ => exact hreg.elim
-  | comp f op dAdj _ => exact hreg.elim
+  | comp f op dAdj opLin _ => exact hreg.elim
   | infconv f g _ _ => exact hreg.elim
   | menv f P σ _ => exact hreg.elim
   | dconj f _ => exact hreg.elim
@@ -1108,7 +1384,7 @@ example : ∀ t', (Fn.trans (.lscal 2 .l2sq) 3 : Fn ℝ ℝ).conj
       FYeqm (eOps (· * ·) (fun _ _ => 0) (fun _ _ => false) (fun _ _ => 0))
         (Fn.trans (.lscal 2 .l2sq) 3) t' := by
   intro t' h
-  refine C08.conj_sound_eq (E := ℝ) _ _ _ _ ?_ ?_ _ t' ?_ rfl h
+  refine C08.conj_sound_eq (E := ℝ) _ _ _ _ (fun v c y => by simp [mul_left_comm]) ?_ ?_ _ t' ?_ rfl h
   · intro x hx; simp [Fn.dom, eOps] at hx
   · intro γ x hx; simp [Fn.dom, eOps] at hx
   · trivial
